@@ -45,7 +45,7 @@ chk.extra['rule'] = (
     'runs); distinct = distinct (structure, option set, transformation, output file)')
 chk.extra['explanation'] = (
     'stage invariance proved on models; composition and runtime order-dependence by paired runs only. '
-    'PROVED in Lean (VermouthProps/C11.lean, VermouthProps/C11_Stages.lean), each on the model named: sqdist_isometry '
+    'PROVED in Lean (VermouthProps/C11.lean, C11_Stages.lean, C11_StagesC01.lean), each on the model named: sqdist_isometry '
     '(squared distances invariant under x -> A x + t, A integer with A^T A = I); bond guessing C10.run: same bond SET for '
     'every permutation of the atom list, complete result unchanged by a rigid motion; repair_graph C04.repairResidue: a '
     'residue that is its block under any renaming / order / keys gets exactly the block\'s names, elements and bonds, two '
@@ -62,7 +62,7 @@ chk.extra['explanation'] = (
     'topology for the pairs of presentations that were actually run; the evidence counts those pairs and lists every class of '
     'admitted difference with its count, largest deviation and bound (admitted_differences). No statement is made about '
     'inputs, options or hash seeds that were not run.')
-chk.lean(['VermouthProps.C11', 'VermouthProps.C11_Stages'], 'driver_c11')
+chk.lean(['VermouthProps.C11', 'VermouthProps.C11_Stages', 'VermouthProps.C11_StagesC01'], 'driver_c11')
 chk.trusted += [
     'harness/c11.py: PDB reader/writer and the four input transformations, the ITP tokenizer (section -> number of '
     'atom columns), the comparison of coordinates modulo the motion, the admission rule for near-threshold pairs',
